@@ -40,6 +40,9 @@ def explore(run, tier):
         for m in masks:
             cases.append({'s': ''.join(rng.choice(alpha) for _ in range(n)), 'm': m})
             cases.append({'s': ''.join(rng.choice(wild) for _ in range(n)), 'm': m})
+    for n in range(10, 41):
+        for ch in '09 *Xé':          # one repeated character (zero-filled placeholders, blanks, the mask character itself)
+            cases.append({'s': ch * n, 'm': masks[n % len(masks)]})
     for _ in range(1000 if tier == 'quick' else 50000):
         n = rng.randrange(10, 41)
         cases.append({'s': ''.join(rng.choice(rng.choice([alpha, wild])) for _ in range(n)), 'm': rng.choice(masks)})
